@@ -26,6 +26,9 @@ type netPath struct {
 	Panic bool
 }
 
+// opcodes whose handler invokes the call protocol (filled by handlerNets)
+var callingOpcodesSeen = map[string]bool{}
+
 var insFieldRe = regexp.MustCompile(`\(?\*?&?codes\[v\.frame\.N\]\)?\.`)
 
 // handlerNets: for every opcode with a handler, the paths of the handler with their net
@@ -56,6 +59,9 @@ func (c *Ctx) handlerNets() (map[string][]netPath, error) {
 				}
 				if !isProto && callee != nil && in.Inline != nil && in.Inline(callee) && !loopReturns2(c, callee) {
 					return nil // a new helper (e.g. an extracted pop/push): executed in place
+				}
+				if isProto {
+					callingOpcodesSeen[label] = true
 				}
 				if isProto && len(args) == 4 {
 					// axiom (FRM-CHECKS): the call protocol replaces xArgs arguments by xRets results
@@ -472,6 +478,11 @@ func (d *depthJudge) segEffect(st *State, a *atom, iterEff map[*loopIter]*linFor
 		return lconst(1), nil // a composite literal or expression leaves one value (judged in toData itself)
 	case "compiler.compile", "compiler.compileAll":
 	default:
+		// a new helper that returns instructions (e.g. an extracted "cast to the declared
+		// type"): its own layouts, all with one effect
+		if e, ok := d.helperEffect(src.Name); ok {
+			return e, nil
+		}
 		return nil, fmt.Errorf("segment produced by %s", src.Name)
 	}
 	child := src.Args[len(src.Args)-1]
@@ -893,6 +904,13 @@ func (m *layMachine) runFunc(fd *ast.FuncDecl) (*caseLayouts, error) {
 			continue
 		}
 		atoms, ok := seqAtoms(r.Ret[0])
+		if !ok && r.Ret[0].Op == "lit" && strings.HasPrefix(r.Ret[0].Name, "[]") {
+			// a literal slice of instructions
+			ok = true
+			for _, el := range r.Ret[0].Args {
+				atoms = append(atoms, &atom{Ins: el})
+			}
+		}
 		if !ok {
 			out.Flags = append(out.Flags, "result is not a sequence on some path")
 			continue
@@ -974,4 +992,41 @@ func judgeToData(c *Ctx, r *R, nets map[string][]netPath, judged *int) {
 func loopReturns2(c *Ctx, callee types.Object) bool {
 	fd := c.DeclOf(callee)
 	return fd == nil || fd.Body == nil || loopReturns(fd)
+}
+
+var helperEffectCache = map[string]*linForm{}
+
+// helperEffect: the net effect of the instructions a new helper returns, when it is the same
+// constant on every returning path.
+func (d *depthJudge) helperEffect(name string) (*linForm, bool) {
+	if e, ok := helperEffectCache[name]; ok {
+		return e, e != nil
+	}
+	helperEffectCache[name] = nil
+	fd := d.c.Func(name)
+	if fd == nil || fd.Body == nil {
+		return nil, false
+	}
+	if o := d.c.Info.Defs[fd.Name]; o == nil || !d.c.isNewHelper(o) {
+		return nil, false
+	}
+	m := newLayMachine(d.c)
+	cl, err := m.runFunc(fd)
+	if err != nil || len(cl.Iters) > 0 {
+		return nil, false
+	}
+	sub := &depthJudge{c: d.c, r: newR("tmp", 0), nets: d.nets, m: m, label: "helper"}
+	var eff *linForm
+	for _, p := range cl.Paths {
+		e, ok := sub.seqEffect(p, m.live(p), map[*loopIter]*linForm{}, "helper", "-")
+		if e == nil || !ok {
+			return nil, false
+		}
+		if eff != nil && eff.String() != e.String() {
+			return nil, false
+		}
+		eff = e
+	}
+	helperEffectCache[name] = eff
+	return eff, eff != nil
 }
